@@ -1,0 +1,32 @@
+//go:build verif
+
+package redis
+
+import (
+	"io"
+	"time"
+
+	red "github.com/go-redis/redis/v8"
+)
+
+// VerifUseTimeouts drops every cached go-redis client and registers, for addr, a client that differs
+// from the package's usual one only in its read/write/dial timeouts (build tag verif).  The rate
+// limiter driver uses it to keep a "server accepts but never answers" outage short: with the
+// defaults (3 s read timeout, 3 retries) one hanging command costs about 12 s.  VerifResetClients
+// returns to the default client.
+func VerifUseTimeouts(addr string, timeout time.Duration) {
+	VerifResetClients()
+	_, _ = clientManager.Get(addr, func() (io.Closer, error) {
+		client := red.NewClient(&red.Options{
+			Addr:         addr,
+			DB:           defaultDatabase,
+			MaxRetries:   maxRetries,
+			MinIdleConns: idleConns,
+			DialTimeout:  timeout,
+			ReadTimeout:  timeout,
+			WriteTimeout: timeout,
+		})
+		client.AddHook(durationHook)
+		return client, nil
+	})
+}
